@@ -497,7 +497,8 @@ def rule_K_FAST(ctx, repo):
 
 
 def rule_K_OWN(ctx, repo):
-    """objects mutated in place on the key path are owned by the call (never elements of module-level state)"""
+    """objects mutated in place on the key path are owned by the call (never elements of module-level state); values memoised in
+    module-level state are keyed by everything they were computed from"""
     from . import own
     nsites = 0
     for modname in ('_inspect', 'keymaps', 'crypto', 'rounding'):
@@ -505,6 +506,7 @@ def rule_K_OWN(ctx, repo):
         shared, results = own.analyse_module(m)
         ctx.tables.setdefault('module-level containers', {})[m.rel] = sorted(shared)
         for fname, ft in sorted(results.items()):
+            ctx.analysed('%s::%s' % (m.rel, fname))
             for node, recv, tags in ft.sites:
                 nsites += 1
                 bad = sorted(t for t in tags if t.startswith('sharedelem:'))
@@ -514,5 +516,35 @@ def rule_K_OWN(ctx, repo):
                              '%s mutates "%s" in place, and that object may be an element of the module-level container %s: the mutation outlives the call, so the key '
                              'of a later call depends on earlier calls (e.g. the keywords of the first call become permanent defaults)' % (
                                  fname, recv, ', '.join(b.split(':', 1)[1] for b in bad)), '%s:%d' % (m.rel, node.lineno))
+            for node, cname, kexpr, vexpr, env in ft.memo_stores:
+                deps = own.arg_names(vexpr, env, ft) & ft.params
+                whole = own.whole_names(kexpr, env)
+                missing = sorted(deps - whole)
+                ctx.ob('K-MEMO', '%s::%s %s[%s]' % (m.rel, fname, cname, unparse(kexpr)), not missing)
+                if missing:
+                    ctx.fail('K-MEMO', '%s::%s' % (m.rel, fname), 'memo %s keyed without %s' % (cname, ','.join(missing)),
+                             '%s stores a value computed from %s in the module-level table %s under the key %s, which does not contain %s itself (only something derived '
+                             'from it): another object with the same derived key is served the first one\'s value - e.g. functions sharing a code object get each other\'s '
+                             'defaults, so calls are keyed with the wrong defaults' % (fname, ', '.join(sorted(deps)), cname, unparse(own.expand(kexpr, env)), ' / '.join(missing)),
+                             '%s:%d' % (m.rel, node.lineno))
+            for node, cname, kexpr, used, env in ft.handler_memos:
+                deps = used & ft.params
+                whole = own.whole_names(kexpr, env)
+                # names the key was derived from count as covered only when whole
+                missing = sorted(d for d in deps - whole if not derives_only_from(kexpr, env, d))
+                ctx.ob('K-MEMO', '%s::%s %s.add(%s)' % (m.rel, fname, cname, unparse(kexpr)), not missing)
+                if missing:
+                    ctx.fail('K-MEMO', '%s::%s' % (m.rel, fname), 'sticky fact in %s ignores %s' % (cname, ','.join(missing)),
+                             '%s records a fact in the module-level %s (keyed by %s) from inside an exception handler whose guarded code also depends on %s: one call with a '
+                             'particular %s changes how every later call is keyed in this process' % (fname, cname, unparse(kexpr), ', '.join(missing), '/'.join(missing)),
+                             '%s:%d' % (m.rel, node.lineno))
     if nsites < 8:
         raise AnalysisError('instance count below confirmed minimum: %d in-place mutation sites on the key path' % nsites)
+
+
+def derives_only_from(kexpr, env, name):
+    """is the key expression (after expansion) built from `name` alone (e.g. name.__name__)"""
+    from . import own
+    e = own.expand(kexpr, env)
+    names = set(n.id for n in ast.walk(e) if isinstance(n, ast.Name))
+    return names == set([name])
